@@ -67,6 +67,8 @@ def generate(rng, tier):
         else:
             sep = rng.choice([" ", ",", ", ", "  ", " ,", "\t"])
             vb = sep.join([_num(rng), _num(rng), _pos(rng), _pos(rng)])
+            if rng.random() < 0.15:      # very flat or very tall shapes
+                a, b = rng.choice([("1000", "9.2"), ("1000", "10"), ("12.5", "2400"), ("800", "8")]); vb = sep.join([_num(rng), _num(rng), a, b])
             if rng.random() < 0.1: vb += sep + "7"
             vb = rng.choice(["", " ", "\n "]) + vb + rng.choice(["", " "])
         d = rng.random()
@@ -77,6 +79,11 @@ def generate(rng, tier):
             try:
                 toks = vb.replace(",", " ").split(); w, h = float(toks[2]), float(toks[3]); s = rng.choice([1, 2, 0.5, 3])
                 dw, dh = F(w * s), F(h * s); fam += "/equal-aspect"
+                if rng.random() < 0.5:
+                    # nearly the same shape: aspect ratios that differ by 1e-3 .. 1e-7 (absolutely: flat and tall shapes make that a large
+                    # relative difference) - the fit is not exact and alignment matters
+                    dh = F(float(dh) + rng.choice([1, -1]) * float(dw) * rng.choice([9e-4, 1e-4, 1e-5, 1e-7])); fam = "valid/nearly-equal-aspect"
+                    if dh <= 0: dh = F(h * s)
             except Exception:
                 dw, dh = F(100), F(100)
         else:
